@@ -197,13 +197,18 @@ func runC08(c *Ctx) {
 				}
 				switch st := l.Stmt.(type) {
 				case *ast.RangeStmt:
-					xk := rawKey(st.X)
+					// what is ranged over, with temporaries, accessors and helper parameters resolved
+					head := Point{l.Head, 0}
+					rx, rxpt := f.Resolve(st.X, head)
+					xk := f.KeyAt(st.X, head)
 					if strings.HasSuffix(xk, ".writtenValuesCounter") {
-						if ix, ok := ast.Unparen(recv).(*ast.IndexExpr); ok && fieldSel(info, ix.X, "writtenValues") && st.Key != nil && rawKey(ix.Index) == rawKey(st.Key) {
-							okLoop = true
+						if ix, ok := ast.Unparen(recv).(*ast.IndexExpr); ok && st.Key != nil && rawKey(ix.Index) == rawKey(st.Key) {
+							if bx, _ := f.Resolve(ix.X, d); fieldSel(info, bx, "writtenValues") {
+								okLoop = true
+							}
 						}
 					}
-					if sl, ok := ast.Unparen(st.X).(*ast.SliceExpr); ok && fieldSel(info, sl.X, "writtenValues") && sl.Low == nil && sl.High != nil && strings.HasSuffix(rawKey(sl.High), ".writtenValuesCounter") {
+					if sl, ok := ast.Unparen(rx).(*ast.SliceExpr); ok && fieldSel(info, sl.X, "writtenValues") && sl.Low == nil && sl.High != nil && strings.HasSuffix(f.KeyAt(sl.High, rxpt), ".writtenValuesCounter") {
 						if st.Value != nil && objOfIdent(info, recv) != nil && objOfIdent(info, recv) == objOfIdent(info, st.Value) {
 							okLoop = true
 						}
